@@ -219,7 +219,17 @@ pub fn run_regr<F: Float>(case: &Case, viols: &mut Sink) -> Cnt {
         let f1 = eight::<F, _, _>(&dp, &t);
         let f2 = eight::<F, _, _>(&p, &dt);
         let f3 = eight::<F, _, _>(&p.view(), &t.view());
-        for (name, f) in [("dataset.metric(&array)", &f1), ("array.metric(&dataset)", &f2), ("view.metric(&view)", &f3)] {
+        let f4 = eight::<F, _, _>(&dp.view(), &t);
+        let f5 = eight::<F, _, _>(&p, &dt.view());
+        let f6 = eight::<F, _, _>(&dp.view(), &dt.view());
+        for (name, f) in [
+            ("dataset.metric(&array)", &f1),
+            ("array.metric(&dataset)", &f2),
+            ("view.metric(&view)", &f3),
+            ("dataset_view.metric(&array)", &f4),
+            ("array.metric(&dataset_view)", &f5),
+            ("dataset_view.metric(&dataset_view)", &f6),
+        ] {
             cnt.bump("regression.calling_forms_compared", 1);
             for i in 0..8 {
                 if !same(&f[i], &base[i]) {
